@@ -60,3 +60,13 @@ Theorem C07_expiry_at_deadline : forall s dt tag d,
   exists new, t_log (tstep s (TTickE dt)) = new ++ TEnd tag 1 :: t_log s.
 Proof. exact expiry_at_deadline. Qed.
 Print Assumptions C07_expiry_at_deadline.
+
+(* cancelling the sender whose frame is in flight ends its wait as cancelled; after close() a send() is over at once *)
+Theorem C07_cancel_in_flight_ends_cancelled : forall s tag d, t_holder s = Some (tag, d) ->
+  exists new, t_log (tstep s (TCancelE tag)) = new ++ TEnd tag 2 :: t_log s.
+Proof. exact cancel_in_flight_ends_cancelled. Qed.
+Print Assumptions C07_cancel_in_flight_ends_cancelled.
+Theorem C07_send_after_close_writes_nothing : forall s tag, t_open s = false -> t_holder s = None -> t_queue s = [] ->
+  t_log (tstep s (TSendE tag)) = TEnd tag 3 :: TCall tag :: t_log s /\ t_holder (tstep s (TSendE tag)) = None.
+Proof. exact send_after_close_writes_nothing. Qed.
+Print Assumptions C07_send_after_close_writes_nothing.
